@@ -657,4 +657,198 @@ Proof.
   rewrite Eg in H12, H13. split; [exact H12|exact H13].
 Qed.
 
+(* ------------------------------------------------------------------ invariants over operation sequences *)
+Notation rstep := (@rstep Nm A D cast promote D_eqb zeroA default_d).
+Notation rrun := (@rrun Nm A D cast promote D_eqb zeroA default_d).
+Notation obs := (@Ring.obs A D).
+
+Definition temporal_ok (r : rec) : Prop :=
+  gtb Nm (rdt r) (zero Nm) = true /\ geb Nm (rdur r) (zero Nm) = true.
+(* what every reachable record satisfies: well formed, valid, no alias of the record dimension,
+   admissible temporal configuration, and exactly the generated number of slots *)
+Definition Inv (r : rec) : Prop :=
+  rwf r /\ rvalid r = true /\ no_alias0 r /\ temporal_ok r /\ N (rg r) = rsize r.
+
+Definition obs_wf (o : obs) : Prop := length (oel o) = nel (oshape o).
+
+(* side conditions under which an operation is covered by the invariant theorem (everything else a
+   caller can do to a record through these operations is covered) *)
+Definition good (r : rec) (o : rop Nm) : Prop :=
+  match o with
+  | RRing _ (OpPush ob _) =>
+      obs_wf ob /\
+      match st (rg r) with
+      | Ring.SFull _ _ _ => True
+      | _ => (* the push that creates the storage: the observation shape must fit the constraints *)
+          (forall d, ignore_or_compatible (DTensor (mkT d (N (rg r) :: oshape ob) [])) (all_cons r) (rstrict r) = true) /\
+          (rstrict r = true \/ forall dd s, In (dd, s) (rcons r) -> pyidx (S (length (oshape ob))) dd <> 0)
+      end
+  | RRing _ (OpRead _) | RRing _ OpPeek | RRing _ (OpIncr _) | RRing _ (OpDecr _) => True
+  | RRing _ _ => False
+  | RSetDt _ _ | RSetDur _ _ | RSetIncl _ _ => True
+  | RRecon _ dim _ =>
+      rstrict r = true \/
+      forall d sh rws, st (rg r) = SFull d sh rws -> pyidx (S (length sh)) (shifted dim) <> 0
+  | RSetValue _ _ => False
+  | RDeinit _ => True
+  end.
+
+(* a ring operation that keeps the record size, the observation shape and the row layout keeps Inv *)
+Lemma ring_change_inv (r : rec) (g' : ring) : Inv r -> wf g' -> rows_uniform g' -> N g' = N (rg r) ->
+  (~ full g' -> ptr g' = 0) ->
+  match st (rg r), st g' with
+  | Ring.SFull d sh rws, Ring.SFull d' sh' rws' => sh' = sh
+  | Ring.SFull _ _ _, _ => False
+  | _, Ring.SFull d' sh' rws' =>
+      ignore_or_compatible (DTensor (mkT d' (N (rg r) :: sh') [])) (all_cons r) (rstrict r) = true /\
+      (rstrict r = true \/ forall dd s, In (dd, s) (rcons r) -> pyidx (S (length sh')) dd <> 0)
+  | _, _ => True
+  end ->
+  Inv (set_rg Nm r g').
+Proof.
+  intros ((Hw & Hu & Hnd & Hp0) & Hv & Hna & Ht & Hsz) Hw' Hu' HN' Hp' Hsh.
+  assert (Hwf' : rwf (set_rg Nm r g')).
+  { split; [exact Hw'|]. split; [exact Hu'|]. split; [|exact Hp'].
+    unfold Resize.all_cons in *. cbn [Resize.set_rg Resize.rg Resize.rcons]. rewrite HN'. exact Hnd. }
+  assert (Hv' : rvalid (set_rg Nm r g') = true).
+  { destruct (st g') as [| |d' sh' rws'] eqn:Es'.
+    - unfold Resize.rvalid, valid, Resize.to_shaped. cbn [sdat Resize.set_rg Resize.rg]. rewrite Es'. reflexivity.
+    - unfold Resize.rvalid, valid, Resize.to_shaped. cbn [sdat Resize.set_rg Resize.rg]. rewrite Es'. reflexivity.
+    - rewrite (rvalid_full (set_rg Nm r g') d' sh' rws' Es').
+      unfold Resize.all_cons. cbn [Resize.set_rg Resize.rg Resize.rcons Resize.rstrict]. rewrite HN'.
+      pose proof Hw' as (_ & _ & Hl'). rewrite Es' in Hl'.
+      destruct (st (rg r)) as [| |d sh rws] eqn:Es.
+      + destruct Hsh as [Hc _]. rewrite <- Hc. apply ioc_shape. cbn [tshape]. congruence.
+      + destruct Hsh as [Hc _]. rewrite <- Hc. apply ioc_shape. cbn [tshape]. congruence.
+      + subst sh'. rewrite (rvalid_full r d sh rws Es) in Hv. rewrite <- Hv. apply ioc_shape. cbn [tshape].
+        destruct Hw as (_ & _ & Hl). rewrite Es in Hl. congruence. }
+  split; [exact Hwf'|]. split; [exact Hv'|]. split; [|split; [exact Ht|exact (eq_trans HN' Hsz)]].
+  destruct (rstrict r) eqn:Est.
+  - apply strict_no_alias0; [exact Hwf'|exact Est|exact Hv'].
+  - unfold no_alias0 in *. cbn [Resize.set_rg Resize.rg Resize.rcons].
+    destruct (st g') as [| |d' sh' rws'] eqn:Es'; [exact I|exact I|].
+    destruct (st (rg r)) as [| |d sh rws] eqn:Es.
+    + destruct Hsh as [_ [Hc|Hc]]; [discriminate|exact Hc].
+    + destruct Hsh as [_ [Hc|Hc]]; [discriminate|exact Hc].
+    + subst sh'. exact Hna.
+Qed.
+
+Lemma push_ring (g : ring) (o : obs) ip : wf g -> rows_uniform g -> obs_wf o ->
+  match push cast zeroA g o ip with
+  | Ok g' _ => wf g' /\ rows_uniform g' /\ N g' = N g /\
+      exists d' rws', st g' = SFull d' (match st g with Ring.SFull _ sh _ => sh | _ => oshape o end) rws'
+  | Err _ => True
+  end.
+Proof.
+  intros Hw Hu Ho. pose proof Hw as (Hn & Hp & Hl).
+  unfold push.
+  set (g1 := match st g with Ring.SFull _ _ _ => g | _ => initialize zeroA g (oshape o) (odt o) end).
+  set (sh1 := match st g with Ring.SFull _ sh _ => sh | _ => oshape o end).
+  assert (H1 : exists d1 rws1, st g1 = SFull d1 sh1 rws1 /\ length rws1 = N g /\ uniform (nel sh1) rws1 /\
+                 N g1 = N g /\ ptr g1 < N g).
+  { unfold g1, sh1, rows_uniform in *. destruct (st g) as [| |d sh rws] eqn:Es.
+    - exists (odt o), (repeat (repeat zeroA (nel (oshape o))) (N g)). unfold initialize. rewrite Es. cbn [st N ptr].
+      rewrite repeat_length. repeat split; auto. apply uniform_repeat. apply repeat_length.
+    - exists d, (repeat (repeat zeroA (nel (oshape o))) (N g)). unfold initialize. rewrite Es. cbn [st N ptr].
+      rewrite repeat_length. repeat split; auto. apply uniform_repeat. apply repeat_length.
+    - exists d, rws. rewrite Es. auto. }
+  destruct H1 as (d1 & rws1 & E1 & Hl1 & Hu1 & HN1 & Hp1).
+  unfold write. rewrite E1.
+  destruct (shape_eqb (oshape o) sh1) eqn:Esh; cbn [negb]; [|exact I].
+  apply shape_eqb_eq in Esh.
+  assert (Hi : idx g1 0 < length rws1) by (rewrite Hl1; unfold idx, unwind, _unwind_ptr; rewrite HN1; lia).
+  rewrite (splice_is_upd rws1 _ (map (cast d1) (oel o)) Hi).
+  set (g2 := set_st g1 (SFull d1 sh1 (upd rws1 (idx g1 0) (map (cast d1) (oel o))))).
+  assert (E2 : (if ip then Ok g2 (@OUnit A D) else Ok g2 OUnit) = Ok g2 OUnit) by (destruct ip; reflexivity).
+  rewrite E2. unfold incr. unfold g2 at 1. cbn [set_st st].
+  split; [|split; [|split; [exact HN1|]]].
+  3: { unfold set_ptr, g2, set_st. cbn [st]. eauto. }
+  - unfold wf, set_ptr, g2, set_st. cbn [N ptr st]. rewrite upd_length', HN1. repeat split; auto.
+    unfold unwind, _unwind_ptr. lia.
+  - unfold rows_uniform, set_ptr, g2, set_st. cbn [st]. apply uniform_upd; [exact Hu1|].
+    rewrite map_length, Ho, Esh. reflexivity.
+Qed.
+
+Theorem rstep_inv (r : rec) (o : rop Nm) : Inv r -> good r o -> Inv (fst (fst (rstep r o))).
+Proof.
+  intros HI Hg. pose proof HI as (Hwf & Hv & Hna & (Ht1 & Ht2) & Hsz). pose proof Hwf as (Hw & Hu & Hnd & Hp0).
+  destruct o as [x|v|v|b|dim z|v|]; cbn [Resize.rstep good] in *.
+  - (* ring operations *)
+    destruct x; try contradiction; cbn [step].
+    + (* push *)
+      destruct Hg as [Ho Hg]. pose proof (push_ring (rg r) o inplace Hw Hu Ho) as Hp.
+      destruct (push cast zeroA (rg r) o inplace) as [g' out|e]; cbn [fst]; [|exact HI].
+      destruct Hp as (Hw' & Hu' & HN' & d' & rws' & Es').
+      apply ring_change_inv; [exact HI|exact Hw'|exact Hu'|exact HN'| |].
+      * intros Hnf. exfalso. apply Hnf. unfold full. rewrite Es'. exact I.
+      * rewrite Es'. destruct (st (rg r)); auto; destruct Hg as [Hg1 Hg2]; split; auto.
+    + (* peek *)
+      unfold peek, read. destruct (st (rg r)); cbn [fst]; first [exact HI|destruct r as [[n p s] ? ? ? ? ? ? ?]; exact HI].
+    + (* read *)
+      unfold read. destruct (st (rg r)); cbn [fst]; first [exact HI|destruct r as [[n p s] ? ? ? ? ? ? ?]; exact HI].
+    + (* incr *)
+      unfold incr. destruct (st (rg r)) as [| |d sh rws] eqn:Es; cbn [fst]; try exact HI.
+      apply ring_change_inv; [exact HI| | | | |].
+      * destruct Hw as (Hn & _ & Hl). unfold wf, set_ptr. cbn [N ptr st]. rewrite Es in *. repeat split; auto.
+        unfold unwind, _unwind_ptr. lia.
+      * exact Hu.
+      * reflexivity.
+      * intros Hnf. exfalso. apply Hnf. unfold full, set_ptr. cbn [st]. rewrite Es. exact I.
+      * unfold set_ptr. cbn [st]. rewrite Es. reflexivity.
+    + (* decr *)
+      unfold decr. destruct (st (rg r)) as [| |d sh rws] eqn:Es; cbn [fst]; try exact HI.
+      apply ring_change_inv; [exact HI| | | | |].
+      * destruct Hw as (Hn & _ & Hl). unfold wf, set_ptr. cbn [N ptr st]. rewrite Es in *. repeat split; auto.
+        unfold unwind, _unwind_ptr. lia.
+      * exact Hu.
+      * reflexivity.
+      * intros Hnf. exfalso. apply Hnf. unfold full, set_ptr. cbn [st]. rewrite Es. exact I.
+      * unfold set_ptr. cbn [st]. rewrite Es. reflexivity.
+  - (* dt *)
+    destruct (gtb Nm v (zero Nm)) eqn:Ev.
+    + destruct (setter_spec r (SetDt v) Hwf Hv Hna Ev) as (r' & Hr & H1 & H2 & H3 & H4 & H5 & H6 & H7 & _).
+      cbn [apply_setter] in Hr. rewrite Hr. cbn [fst configured Resize.rdt Resize.rdur Resize.rincl] in *.
+      split; [exact H1|]. split; [exact H2|]. split; [exact H3|]. split; [split; congruence|].
+      rewrite H4. unfold rsize. cbn [Resize.rdt Resize.rdur Resize.rincl]. congruence.
+    + unfold Resize.set_dt. rewrite Ev. exact HI.
+  - (* duration *)
+    destruct (geb Nm v (zero Nm)) eqn:Ev.
+    + destruct (setter_spec r (SetDur v) Hwf Hv Hna Ev) as (r' & Hr & H1 & H2 & H3 & H4 & H5 & H6 & H7 & _).
+      cbn [apply_setter] in Hr. rewrite Hr. cbn [fst configured Resize.rdt Resize.rdur Resize.rincl] in *.
+      split; [exact H1|]. split; [exact H2|]. split; [exact H3|]. split; [split; congruence|].
+      rewrite H4. unfold rsize. cbn [Resize.rdt Resize.rdur Resize.rincl]. congruence.
+    + unfold Resize.set_duration. rewrite Ev. exact HI.
+  - (* inclusive *)
+    destruct (setter_spec r (SetIncl b) Hwf Hv Hna Ht2) as (r' & Hr & H1 & H2 & H3 & H4 & H5 & H6 & H7 & _).
+    cbn [apply_setter] in Hr. rewrite Hr. cbn [fst configured Resize.rdt Resize.rdur Resize.rincl] in *.
+    split; [exact H1|]. split; [exact H2|]. split; [exact H3|]. split; [split; congruence|].
+    rewrite H4. unfold rsize. cbn [Resize.rdt Resize.rdur Resize.rincl]. congruence.
+  - (* reconstrain *)
+    destruct (rreconstrain_spec r dim z Hwf Hv Hna Hg) as (r' & e & Hr & H1 & H2 & H3 & H4 & H5 & H6 & H7 & _).
+    rewrite Hr. cbn [fst]. split; [exact H1|]. split; [exact H2|]. split; [exact H3|]. split; [split; congruence|].
+    rewrite H4, Hsz. unfold rsize. congruence.
+  - contradiction.
+  - (* deinitialize *)
+    unfold Resize.rdeinit. cbn [fst].
+    apply ring_change_inv; [exact HI| | | | |]; cbn [N ptr st].
+    + destruct Hw as (Hn & _). unfold wf. cbn [N ptr st]. auto.
+    + exact I.
+    + reflexivity.
+    + reflexivity.
+    + destruct (st (rg r)); exact I.
+Qed.
+
+(* every state reachable by covered operations satisfies the invariant: in particular it always has
+   exactly the generated number of slots, and the hypotheses of the resizing theorems hold in it *)
+Fixpoint all_good (r : rec) (ops : list (rop Nm)) : Prop :=
+  match ops with
+  | [] => True
+  | o :: tl => good r o /\ all_good (fst (fst (rstep r o))) tl
+  end.
+Theorem rrun_inv : forall ops (r : rec), Inv r -> all_good r ops -> Inv (rrun r ops).
+Proof.
+  induction ops as [|o ops IH]; intros r HI Hg; cbn [Resize.rrun]; [exact HI|].
+  destruct Hg as [Hg1 Hg2]. apply IH; [apply rstep_inv; assumption|exact Hg2].
+Qed.
+
 End ResizeProofs.
